@@ -144,7 +144,7 @@ func (c *Ctx) finish(verifDir string, seed int, start time.Time, explanation str
 		if o.Status == "violated" || o.Status == "undecided" {
 			matched := false
 			for _, f := range c.findings {
-				if f.Status == "open" && f.Property == c.Prop && f.Rule == o.Rule && f.Key == o.Key {
+				if f.Status == "open" && f.Property == c.Prop && f.Rule == strings.TrimSuffix(o.Rule, "[tags=debug]") && f.Key == o.Key {
 					matched = true
 					fmt.Printf("KNOWN-FINDING: property=%s %s %s — %s\n", c.Prop, o.Rule, o.Key, f.What)
 					break
